@@ -78,17 +78,25 @@ def prepareDecode (c : Codec F) (msg ecc : List F) (k : Nat) (enableErasures : B
   let k := effK c k
   -- erasure positions are detected on `message + ecc` *before* padding
   let mesecc := msg ++ ecc
+  -- (as repaired: `if enable_erasures or only_erasures` - correcting only the erasures implies detecting them)
   let erasePos : Option (List Nat) :=
-    if enableErasures then
+    if enableErasures || onlyErasures then
       some ((List.range mesecc.length).filter (fun i => mesecc[i]? = some erasureChar))
     else none
-  if enableErasures && onlyErasures && (erasePos.getD []).isEmpty then none
+  if onlyErasures && (erasePos.getD []).isEmpty then none
   else
     let (m, padLen) := pad msg k
     let e := rpad ecc c.n k
     -- `if erasures_pos and pad:` shift by the pad length (an empty list is left as it is)
     let erasePos := erasePos.map (fun l => if l.isEmpty || padLen = 0 then l else l.map (· + padLen))
     some { word := m ++ e, nsym := c.n - k, erasePos := erasePos, onlyErasures := onlyErasures, padLen := padLen }
+
+/-- number of positions (below both lengths) outside the erasure list where the repaired word
+differs from the received one: `sum(1 for i in range(min(len(received), len(repaired))) if
+received[i] != repaired[i] and i not in erased)` -/
+def correctedErrors (received repaired : List F) (erased : List Nat) : Nat :=
+  ((List.range (min received.length repaired.length)).filter
+    (fun i => decide (received[i]? ≠ repaired[i]?) && !erased.contains i)).length
 
 /-- `ECCMan.decode(message, ecc, k, enable_erasures, erasures_char, only_erasures)` -/
 def decode (core : Core F) (c : Codec F) (msg ecc : List F) (k : Nat := 0) (enableErasures : Bool := false)
@@ -101,7 +109,12 @@ def decode (core : Core F) (c : Codec F) (msg ecc : List F) (k : Nat := 0) (enab
     | .ok (mr, er) =>
       -- codecs 1/2: left-pad the returned ecc back to `n-k` (the library strips leading nulls)
       let er := if c.algo = 1 ∨ c.algo = 2 then List.replicate (call.nsym - er.length) 0 ++ er else er
-      -- `if pad: msg_repaired = msg_repaired[len(pad):]`
-      .ok (mr.drop call.padLen, er)
+      -- sanity check against miscorrections (as repaired): the corrections actually made must fit in the
+      -- capacity of the code, `2*errors + erasures <= n-k`, else `ReedSolomonError`
+      if 2 * correctedErrors call.word (mr ++ er) (call.erasePos.getD []) + (call.erasePos.getD []).length > call.nsym then
+        .error .reedSolomonError
+      else
+        -- `if pad: msg_repaired = msg_repaired[len(pad):]`
+        .ok (mr.drop call.padLen, er)
 
 end Pff.Facade
